@@ -184,15 +184,16 @@ def ensure_coq(report):
                 os.path.exists(pinned) and open(pinned).read() != text)
         # the functions of yarl/_path.py, re-translated from the source (fail closed: a stub and the reason)
         import gen_model
-        gen = os.path.join(COQ, "Generated", "PathGen.v")
         try:
-            gtext, gerrs = gen_model.generate(REPO)
+            gtexts, gerrs = gen_model.generate_all(REPO)
         except Exception as e:  # noqa: B902
-            gtext, gerrs = None, [f"{type(e).__name__}: {e}"]
+            gtexts, gerrs = {}, [f"{type(e).__name__}: {e}"]
         report["model_gen_errors"] = gerrs
-        if gtext is not None and (not os.path.exists(gen) or open(gen).read() != gtext):
-            with open(gen, "w") as f:
-                f.write(gtext)
+        for mod, gtext in gtexts.items():
+            gen = os.path.join(COQ, "Generated", mod + ".v")
+            if not os.path.exists(gen) or open(gen).read() != gtext:
+                with open(gen, "w") as f:
+                    f.write(gtext)
         mk = os.path.join(COQ, "Makefile")
         proj = os.path.join(COQ, "_CoqProject")
         write_coqproject()
